@@ -7,7 +7,7 @@ import numpy as np
 from hypothesis import strategies as st
 
 from .. import gen, model
-from ..core import as_violation, Ctx, Violation, call, check, per_shard, run_given, run_machine
+from ..core import as_violation, Ctx, Violation, call, check, per_shard, run_given, run_machine, given_part, machine_part, run_parts
 
 PID = "C15"
 LEVEL = "exploration"
@@ -559,6 +559,7 @@ def replay(ctx: Ctx, case):
 
 def run(ctx: Ctx):
     q = ctx.tier == "quick"
-    if not run_given(ctx, "recognition", recog_cases(), check_recognition, per_shard(ctx, 400 if q else 4000), batch=50):
-        return
-    run_machine(ctx, "history", lambda: make_machine(ctx), per_shard(ctx, 320 if q else 6400), steps=24, batch=10)
+    parts = []
+    parts.append(given_part(ctx, "recognition", recog_cases(), check_recognition, per_shard(ctx, 400 if q else 4000), batch=50))
+    parts.append(machine_part(ctx, "history", lambda: make_machine(ctx), per_shard(ctx, 320 if q else 6400), steps=24, batch=10))
+    run_parts(ctx, parts)
